@@ -10,6 +10,7 @@ Oracle : both pretty and compact documents parse with json.loads and give equal 
 """
 from __future__ import annotations
 
+import io
 import json
 import re
 
@@ -224,6 +225,32 @@ def run_case(case):
             a, b = _mask_ts(texts[pretty]).split("\n"), _mask_ts(r[1]).split("\n")
             line = next((i for i, (x, y) in enumerate(zip(a, b)) if x != y), min(len(a), len(b)))
             return ("rewrite-differs", f"write(read(doc)) != doc at line {line + 1}: {a[line:line + 1]} vs {b[line:line + 1]}")
+    if case["version"] == "@current":
+        # the loader the report / findings commands use (codelimit.utils.read_report) must hand out the same report
+        import tempfile
+        from pathlib import Path
+
+        from rich.console import Console
+
+        from codelimit.utils import read_report
+
+        with tempfile.TemporaryDirectory(prefix="vf-c08-") as d:
+            path = Path(d) / "codelimit.json"
+            try:
+                path.write_text(texts[False])
+            except UnicodeEncodeError:
+                return None
+            r = call_sut(read_report, path, Console(file=io.StringIO()))
+        if r[0] == "exc":
+            return (f"read_report:{r[1]}", r[2])
+        bad = c07.compare_view(c07.object_view(r[1].codebase), case["codebase"], "read_report")
+        if bad:
+            return bad
+        r = call_sut(lambda: ReportWriter(r[1], False).to_json())
+        if r[0] == "exc":
+            return (f"read_report:rewrite:{r[1]}", r[2])
+        if _mask_ts(r[1]) != _mask_ts(texts[False]):
+            return ("read_report:rewrite-differs", "write(read_report(doc)) != doc")
     return None
 
 
